@@ -13,7 +13,7 @@ DB == Tables.db2
 Pol == Tables.policies
 Cats == {"kex", "key", "enc", "mac"}
 InDb(cat, n) == n \in DOMAIN DB[cat]
-Failing(cat, n) == DB[cat][n].fail # <<>>
+Failing(cat, n) == InDb(cat, n) /\ DB[cat][n].fail # <<>>      \* (total: a name the database does not know is PolicyNamesKnown's business)
 
 \* --- every name used by another table is known to the rating database ----
 PolicyNamesKnown == \A p \in DOMAIN Pol :
